@@ -39,7 +39,8 @@ import WcModel.Proofs.PathlibViewsGlueLit
 
   What remains of clause 5 (not proved; each item is either a recorded defect, so the clause is
   false there, or outside the fragment): patterns with magic characters (KF-PARTPREFIX, KF-D6,
-  KF-RGLOBSTAR, KF-D7/D8/G3 need a written `**`; for a magic last segment the walker's part regex is
+  KF-D8/G7/G8 need a written `**` — RGLOBSTAR, D7 and G3, which did too, are repaired:
+  `RGLOBSTAR_D7_G3_fixed_witness`; for a magic last segment the walker's part regex is
   compiled with `_EXTMATCHBASE` still set), escaped literals, a trailing `/`, DOTMATCH and FOLLOW
   (different globstar regex / links followed: no obstacle known, not done), IGNORECASE (KF-G2),
   a final newline (KF-NEWLINE, the `$` of the implicit prefix's divider: `newline_needed`), `.`
@@ -730,8 +731,8 @@ theorem rglob_mem_iff_lits (fs : FS) (hwf : fs.WFTree) (hroot : fs.locIsDir (som
     Full statement (`C16_match_rglob`, DESIGN §6): for every tree, flag word `n`, pattern `p` and
     relative path `q` below the working directory,
         `q.match(p, flags = n | REALPATH)`  ⇔  `Path('.').rglob(p, flags = n)` yields `q`.
-    It is FALSE in general (KF-D6, D7, D8, G3, RGLOBSTAR, PARTPREFIX, DOTSEG, NEWLINE; D14, D16 and
-    PLNORM are repaired).  Proved here, on the models of `pathlib.py`, `glob.py`, `_wcmatch.py`,
+    It is FALSE in general (KF-D6, D8, G7, G8, PARTPREFIX, DOTSEG, NEWLINE; D14, D16, PLNORM, D7, G3
+    and RGLOBSTAR are repaired).  Proved here, on the models of `pathlib.py`, `glob.py`, `_wcmatch.py`,
     `_wcparse.py`: the statement for
 
       * `p = s₁/…/sₖ` a literal pattern (`PlainSegs`: no character that some flag makes special in
@@ -926,6 +927,29 @@ theorem match_rglob_evaluated :
     matchB C04.t1 "g" "g" (Gen.FGLOBSTAR ||| Gen.FEXTMATCH ||| Gen.FNODOTDIR) = some false ∧
     rglobL C04.t1 "g" (Gen.FGLOBSTAR ||| Gen.FEXTMATCH ||| Gen.FNODOTDIR) = some ["d/g"] ∧
     rglobL C04.t1 "f" 0 = some ["f"] ∧ matchB C04.t1 "f" "f" 0 = some true ∧ matchB C04.t1 "f" "lf" 0 = some false := by
+  decide +kernel
+
+/-- RGLOBSTAR, D7, G3 (each repaired by a `fix:` commit), on the models, with a written `**`:
+    * RGLOBSTAR — `Path('.').rglob('**/*')` used to lose the results `glob('**/*')` has at depth 1
+      and `rglob('**/g')` yielded `ld/g` through the symlinked directory `ld` (`_GlobSplit` put
+      the implicit globstar in front of the pattern's own, and the walker used the second one as a
+      name matcher); now `rglob('**/*')` is `glob('**/*')` and `rglob('**/g')` is `d/g` alone,
+      as `match` says;
+    * D7 — `Path('lf').match('**', GLOBSTAR|REALPATH)` was False for the symlink-to-file `lf` (and
+      the dangling `dang`) that `rglob('**')` yields;
+    * G3 — `Path('a/x/l/f').match('**/x/**', GLOBSTAR|REALPATH)` was True across the symlinked
+      directory `l`, which `rglob` does not descend.
+    This witness fails again if one of the defects returns. -/
+theorem RGLOBSTAR_D7_G3_fixed_witness :
+    rglobL C04.t1 "**/*" Gen.FGLOBSTAR = some ["f", "lf", "dang", "d", "d/g", "ld"] ∧
+    C04.gg Gen.FGLOBSTAR "**/*" C04.t1 = some ["f", "lf", "dang", "d", "d/g", "ld"] ∧
+    matchB C04.t1 "**/*" "f" Gen.FGLOBSTAR = some true ∧
+    rglobL C04.t1 "**/g" Gen.FGLOBSTAR = some ["d/g"] ∧ matchB C04.t1 "**/g" "ld/g" Gen.FGLOBSTAR = some false ∧
+    rglobL C04.t1 "**" Gen.FGLOBSTAR = some ["f", "lf", "dang", "d", "d/g", "ld"] ∧
+    matchB C04.t1 "**" "lf" Gen.FGLOBSTAR = some true ∧ matchB C04.t1 "**" "dang" Gen.FGLOBSTAR = some true ∧
+    rglobL C04.t2 "**/x/**" Gen.FGLOBSTAR = some ["a/x/", "a/x/l"] ∧
+    matchB C04.t2 "**/x/**" "a/x/l/f" Gen.FGLOBSTAR = some false ∧
+    matchB C04.t2 "**/x/**" "a/x/l" Gen.FGLOBSTAR = some true := by
   decide +kernel
 
 /-- r/ = { "a⏎" } -/
